@@ -182,12 +182,14 @@ CHECKS = {
     },
     'C14': {
         'level_text': 'z3 decides, for all binding and location strings in the stated URL classes, that a successfully unmarshalled Endpoint / IndexedEndpoint carries http(s) Location and ResponseLocation for the standard bindings and blank ones otherwise; replayed natively through encoding/xml.',
-        'level_note': 'real Endpoint.UnmarshalXML, IndexedEndpoint.UnmarshalXML, checkEndpointLocation executed from SSA; encoding/xml decoding modelled as filling the alias struct with the marshalled value; url.Parse abstract (scheme exact on texts starting http://, https://, javascript:, data: or containing no colon - other texts are outside the bound). The html/template half of the property is not decided by this check.',
+        'level_note': 'real Endpoint.UnmarshalXML, IndexedEndpoint.UnmarshalXML, checkEndpointLocation executed from SSA; encoding/xml decoding modelled as filling the alias struct with the marshalled value; url.Parse abstract (scheme exact on texts starting http://, https://, javascript:, data: or containing no colon - other texts are outside the bound). Harness_C14_forms: the four SAML auto-submit forms (SP request, logout request, logout response, IdP response) must come out of an html/template Execute whose data has only plain string fields (the escaping itself is html/template, trusted) and must bind action / RelayState / message field to the intended values (read from the template text); natively the same oracle checks that a markup-bearing relay state and destination do not appear raw and round-trip through the form.',
         'harnesses': [
             # 'rejected' can be reached through the abstract url.Parse failing, which the native parser need not do: not a validation label
             {'name': 'Harness_C14_endpoint', 'pkg': 'saml', 'replay': 'direct', 'must_reach': ['accepted', 'rejected', 'accepted-known-binding'],
              'validate_labels': ['accepted', 'accepted-known-binding']},
             {'name': 'Harness_C14_indexed', 'pkg': 'saml', 'replay': 'direct', 'must_reach': ['accepted', 'rejected'], 'validate_labels': ['accepted']},
+            {'name': 'Harness_C14_forms', 'pkg': 'saml', 'replay': 'direct', 'must_reach': ['authn-request-form', 'logout-request-form', 'logout-response-form', 'idp-response-form'],
+             'opts': {'no_sign_err': True}, 'quick': {'params': {'rand.mayfail': 0}}, 'thorough': {'params': {'rand.mayfail': 0}}},
         ],
     },
     'C06': {
